@@ -313,6 +313,9 @@ def run(ctx):
     crc_rule(ctx, repo, mod)
     mask_rule(ctx, repo)
     dimension_rule(ctx, repo)
+    from sa.rules import C15img
+    C15img.pixels_rule(ctx, repo)
+    C15img.transform_rule(ctx, repo)
     from sa.rules import memo
     memo.run_for(ctx, repo, 'C15')
     return report.finish(ctx, EXPLANATION)
